@@ -65,6 +65,18 @@ def run_case(case, rec, cid):
         rec.ev("DurLaws", cid, a=pa, b=pb, c=pc, n=n, ok=True, cls="", **v)
     else:
         rec.ev("Raised", cid, what="duration arithmetic", cls=type(v).__name__, ve=isinstance(v, ValueError))
+    if not pa["frac"]:
+        # beyond C11: //, abs, to_weeks, bool on the stored form (extended specification, ImplDur.tla)
+        k = n if n else 2
+        hastw = bool(a.get_is_in_weeks() or a.days is not None)
+
+        def g():
+            return dict(fd=proj_dur(a // k), ab=proj_dur(abs(a)), tw=proj_dur(a.to_weeks()) if hastw else proj_dur(None), bl=bool(a))
+        st, v = outcome(g)
+        if st == "ok":
+            rec.ev("DurExt", cid, a=pa, n=k, hastw=hastw, ok=True, cls="", **v)
+        else:
+            rec.ev("DurExt", cid, a=pa, n=k, hastw=hastw, ok=False, cls=type(v).__name__, fd=pa, ab=pa, tw=pa, bl=False)
     return True
 
 
